@@ -673,7 +673,17 @@ pub fn failure_violation(f: &Failure) -> Option<Violation> {
         Failure::Abort { tid } => {
             Some(Violation::new("abort", format!("process::abort reached on sim thread {tid}")))
         }
-        Failure::Invariant { message } => Some(Violation::new("invariant", message.clone())),
+        Failure::Invariant { message } => Some(invariant_violation(message)),
         _ => None,
     }
+}
+
+/// `[class] text` messages of in-run monitors carry their violation class.
+pub fn invariant_violation(message: &str) -> Violation {
+    if let Some(rest) = message.strip_prefix('[') {
+        if let Some((class, text)) = rest.split_once("] ") {
+            return Violation::new(class, text);
+        }
+    }
+    Violation::new("invariant", message)
 }
